@@ -108,6 +108,46 @@ def factory_cases(rng, n):
     return out
 
 
+def solve_cases(rng, n):
+    """solve_axes / solve_shapes / matches on the input expressions of generated calls (numbers, flattened axes, ellipses)"""
+    out = []
+    while len(out) < n:
+        c = gencalls.gen_call(rng, rng.choice(["id", "elementwise", "reduce", "dot"]))
+        ins = c.desc.split(" -> ")[0]
+        if "[" in ins:
+            continue
+        fn = rng.choice(["solve_axes", "solve_axes", "solve_shapes", "matches"])
+        if fn == "matches":
+            out.append({"op": fn, "desc": ins.split(", ")[0], "arrays": [c.arrays[0]], "kw": dict(c.size_kwargs()), "family": "solve:" + fn})
+        else:
+            out.append({"op": fn, "desc": ins, "arrays": list(c.arrays), "kw": dict(c.size_kwargs()), "family": "solve:" + fn})
+    return out
+
+
+def cse_cases(rng, n):
+    """a run of three or more axes that is flattened together with different neighbours on the two sides: only the product of
+    the run is determined, and the solver has to pick the same common sub-expression in every process"""
+    out = []
+    g = gencalls.G(rng)
+    while len(out) < n:
+        k = rng.randint(3, 4)
+        axes = g.pick_axes(k + 2, maxprod=400, sizes=[1, 2, 2, 3])
+        run, x, y = axes[:k], axes[k], axes[k + 1]
+        R = " ".join(a.name for a in run)
+        nR = int(np.prod([a.size for a in run]))
+        t = rng.randrange(4)
+        if t == 0:
+            desc, shape, kw, op = f"({R} {x.name}) {y.name} -> ({R} {y.name}) {x.name}", (nR * x.size, y.size), {x.name: x.size, y.name: y.size}, "id"
+        elif t == 1:
+            desc, shape, kw, op = f"{x.name} ({R}) -> ({x.name} {R})", (x.size, nR), {}, "id"
+        elif t == 2:
+            desc, shape, kw, op = f"({R} {x.name}) -> ({R})", (nR * x.size,), {x.name: x.size}, "sum"
+        else:
+            desc, shape, kw, op = f"({x.name} {R} {y.name}) -> ({R}) ({x.name} {y.name})", (x.size * nR * y.size,), {x.name: x.size, y.name: y.size}, "id"
+        out.append({"op": op, "desc": desc, "arrays": [gencalls.int_data(rng, shape, 1, 50, ramp=True)], "kw": kw, "family": "cse_run"})
+    return out
+
+
 def record_of(e):
     return {"op": e["op"], "desc": e["desc"], "kwargs": {k: (list(v) if isinstance(v, tuple) else v) for k, v in e["kw"].items()},
             "shapes": [list(np.shape(a)) if not isinstance(a, str) else a for a in e["arrays"]], "family": e["family"]}
@@ -121,7 +161,7 @@ def build_cases(rng, tier):
     n = 160 if tier == "quick" else 3000
     gen = [gencalls.gen_call(rng) for _ in range(n)] + collision_cases(rng, n // 4)
     cases = [{"op": c.op, "desc": c.desc, "arrays": c.arrays, "kw": {**c.size_kwargs(), **c.extra_kwargs}, "family": c.family} for c in gen]
-    cases += tie_cases(rng, n // 4) + shorthand_cases(rng, n // 2) + factory_cases(rng, n // 8)
+    cases += tie_cases(rng, n // 4) + shorthand_cases(rng, n // 2) + factory_cases(rng, n // 8) + solve_cases(rng, n // 2) + cse_cases(rng, n // 4)
     return cases
 
 
@@ -186,7 +226,7 @@ def run(ctx):
     ctx.coverage.update({
         "evaluations": len(cases) * len(outs) * 2,
         "rule": "generated calls, update_at calls with deliberately colliding coordinates, element-wise calls with tied implicit outputs, "
-                "short forms of generated calls, and calls with tensor factories of equal type but different signatures, executed in one "
+                "short forms of generated calls, solve_axes / solve_shapes / matches, and calls with tensor factories of equal type but different signatures, executed in one "
                 "fresh process per PYTHONHASHSEED value, each process in its own shuffled order, some calls repeated 3x, graph=True twice; "
                 "distinct_nontrivial = distinct (op, description)",
         "input_distribution": {"family": fam, "hash_seeds": seeds, "processes_completed": len(outs), "exception_classes_in_reference_process": exc},
